@@ -75,29 +75,31 @@ LoopCond == Len(p) > Avail /\ err = ""
 Direct == n = 0 \/ (Dev = "bypass_nonempty" /\ Len(p) >= B)
 
 \* one iteration of `for len(p) > b.Available() && b.err == nil`
+\* else-branch: n = copy(b.buf[b.n:], p); b.n += n; b.flush()
+IterC  == Min(Avail, Len(p))
+IterB1 == CopyAt(buf, n, SubSeq(p, 1, IterC))
+IterN1 == IF Dev = "n_off_by_one" THEN n + IterC - 1 ELSE n + IterC
+\* the argument of the one call of the underlying writer made by this iteration
+IterQ  == IF Direct THEN p ELSE SubSeq(IterB1, 1, IterN1)
+IterOutcomes == IF Direct \/ IterN1 > 0 THEN Outcomes(IterQ) ELSE {OkOutcome(IterQ)}
+
 WIter(o) ==
     /\ pc = "write" /\ LoopCond
+    /\ o \in IterOutcomes
+    /\ faults' = IF IsFault(IterQ, o) THEN faults - 1 ELSE faults
     /\ IF Direct
-         THEN /\ o \in Outcomes(p)
-              /\ faults' = IF IsFault(p, o) THEN faults - 1 ELSE faults
-              /\ wire' = wire \o SubSeq(p, 1, o.k)
+         THEN /\ wire' = wire \o SubSeq(p, 1, o.k)               \* n, b.err = b.wr.Write(p)
               /\ err' = o.e
               /\ nn' = nn + o.k
               /\ acc' = acc \o SubSeq(p, 1, o.k)
               /\ p' = SubSeq(p, o.k + 1, Len(p))
               /\ UNCHANGED <<buf, n>>
-         ELSE LET c  == Min(Avail, Len(p))                       \* n = copy(b.buf[b.n:], p)
-                  b1 == CopyAt(buf, n, SubSeq(p, 1, c))
-                  n1 == IF Dev = "n_off_by_one" THEN n + c - 1 ELSE n + c      \* b.n += n
-                  q  == SubSeq(b1, 1, n1)
-              IN /\ o \in (IF n1 > 0 THEN Outcomes(q) ELSE {OkOutcome(q)})
-                 /\ faults' = IF IsFault(q, o) THEN faults - 1 ELSE faults
-                 /\ LET r == FlushRes(b1, n1, "", o)                           \* b.flush()
-                    IN /\ buf' = r.buf /\ n' = r.n /\ err' = r.err
-                       /\ wire' = wire \o r.out
-                 /\ nn' = nn + c
-                 /\ acc' = acc \o SubSeq(p, 1, c)
-                 /\ p' = SubSeq(p, c + 1, Len(p))
+         ELSE /\ LET r == FlushRes(IterB1, IterN1, "", o)          \* b.flush(), result ignored
+                 IN /\ buf' = r.buf /\ n' = r.n /\ err' = r.err
+                    /\ wire' = wire \o r.out
+              /\ nn' = nn + IterC
+              /\ acc' = acc \o SubSeq(p, 1, IterC)
+              /\ p' = SubSeq(p, IterC + 1, Len(p))
     /\ UNCHANGED <<pc, acc0, ret>>
 
 \* after the loop
@@ -114,9 +116,10 @@ WRet ==
     /\ UNCHANGED <<err, wire, acc0, faults>>
 
 \* ------------------------------------------------------------------ Flush()
+FlushOutcomes == IF FlushCalls(n, err) THEN Outcomes(Pending) ELSE {OkOutcome(Pending)}
 DoFlush(o) ==
     /\ pc = "idle"
-    /\ o \in (IF FlushCalls(n, err) THEN Outcomes(Pending) ELSE {OkOutcome(Pending)})
+    /\ o \in FlushOutcomes
     /\ faults' = IF IsFault(Pending, o) THEN faults - 1 ELSE faults
     /\ LET r == FlushRes(buf, n, err, o)
        IN /\ buf' = r.buf /\ n' = r.n /\ err' = r.err
@@ -129,6 +132,12 @@ BWInit(f) ==
     /\ buf = [i \in 1 .. B |-> 0] /\ n = 0 /\ err = "" /\ wire = <<>>
     /\ pc = "idle" /\ p = <<>> /\ nn = 0 /\ acc = <<>> /\ acc0 = 0
     /\ ret = [op |-> "", nn |-> 0, err |-> "", len |-> 0] /\ faults = f
+
+\* the same as an action (trace specifications start a new history with it)
+BWReset(f) ==
+    /\ buf' = [i \in 1 .. B |-> 0] /\ n' = 0 /\ err' = "" /\ wire' = <<>>
+    /\ pc' = "idle" /\ p' = <<>> /\ nn' = 0 /\ acc' = <<>> /\ acc0' = 0
+    /\ ret' = [op |-> "", nn |-> 0, err |-> "", len |-> 0] /\ faults' = f
 
 \* --------------------------------------------------------------- properties
 BWTypeOK == n \in 0 .. B /\ nn >= 0 /\ faults >= 0 /\ pc \in {"idle", "write"}
